@@ -40,9 +40,10 @@ def _case(draw, tier):
     c = gen.to_times(g)
     c["mrts"] = draw(gen.mrts_for(g, allow_auto=True))
     c["max_tau"] = draw(gen.maxtau_for(g))
-    # 'auto' together with `indices`: the statement does not say which trains
-    # are pooled for the threshold, so that combination is not generated
-    c["indices"] = None if c["mrts"] == "auto" else draw(indices_for(len(c["trains"])))
+    # 'auto' together with `indices`: the statement does not say which trains are
+    # pooled for the threshold, so no reference values are asserted for that combination -
+    # only that values, matrix and synfire indicator of the SAME call agree (run_case)
+    c["indices"] = draw(indices_for(len(c["trains"])))
     c["normalize"] = draw(st.booleans())
     c["compiled"] = draw(st.booleans())
     return c
@@ -128,9 +129,48 @@ def _entries(f):
             for t, y, m in zip(f.x[1:-1], f.y[1:-1], f.mp[1:-1])]
 
 
+def _relational_only(case, ctx):
+    """MRTS='auto' with an `indices` selection: internal consistency of one and the same
+    call - sum of a train's values * (N-1) = row sum of the un-normalised matrix, matrix
+    antisymmetric, synfire indicator = 2 * upper triangle / ((N-1) * spikes)"""
+    import pyspike
+    sts = ps.trains(case)
+    sel = _sel(case)
+    n = len(sel)
+    kw = ps.kw(case)
+    ikw = {"indices": list(case["indices"])}
+    vals = ctx.call("directionality_values", pyspike.spike_directionality_values, sts,
+                    **ikw, **kw)
+    Mx = np.asarray(ctx.call("directionality_matrix", pyspike.spike_directionality_matrix,
+                             sts, normalize=False, **ikw, **kw))
+    ctx.check(len(vals) == n and Mx.shape == (n, n), "shapes_auto_indices",
+              lambda: "%d value arrays, matrix %r for %d selected trains"
+              % (len(vals), Mx.shape, n))
+    for x in range(n):
+        ctx.check(ps.close(float(np.sum(vals[x])) * (n - 1), float(np.sum(Mx[x, :])), 1e-9),
+                  "values_vs_matrix_row_auto_indices",
+                  lambda: "indices=%r MRTS='auto': (N-1)*sum(values of selected train %d)=%r "
+                          "but the row sum of the un-normalised matrix is %r"
+                  % (case["indices"], x, float(np.sum(vals[x])) * (n - 1),
+                     float(np.sum(Mx[x, :]))))
+        for y in range(n):
+            ctx.check(Mx[y, x] == -Mx[x, y], "matrix_antisymmetric",
+                      lambda: "M[%d,%d]=%r M[%d,%d]=%r" % (x, y, Mx[x, y], y, x, Mx[y, x]))
+    total = sum(len(case["trains"][k]) for k in sel)
+    if total > 0:
+        F = ctx.call("spike_train_order", pyspike.spike_train_order, sts, **ikw, **kw)
+        up = sum(float(Mx[x, y]) for x in range(n) for y in range(x + 1, n))
+        ctx.check(ps.close(F, 2 * up / ((n - 1) * total), 1e-9), "synfire_relation",
+                  lambda: "indices=%r MRTS='auto': spike_train_order=%r, "
+                          "2*triu/((N-1)*spikes)=%r" % (case["indices"], F,
+                                                        2 * up / ((n - 1) * total)))
+
+
 def run_case(case, ctx):
     import pyspike
     ctx.set_backend(case["compiled"])
+    if case["mrts"] == "auto" and case["indices"] is not None:
+        return _relational_only(case, ctx)
     sts = ps.trains(case)
     trs, T0, T1, m, mt = _model(case)
     sel = _sel(case)
